@@ -337,8 +337,8 @@ func (n *c12Norm) normalise(fd *ast.FuncDecl, key string) {
 	}
 	// (a) inline role-less once-defined locals used once in the next statement; (b) hoisted if-init; (c) inverted if
 	n.rewriteLists(fd.Body)
-	// identifiers, constants, selectors, struct literals
-	astutil.Apply(fd.Body, func(c *astutil.Cursor) bool {
+	// identifiers (the declaration's own parameter list included), constants, selectors, struct literals
+	astutil.Apply(fd, func(c *astutil.Cursor) bool {
 		switch x := c.Node().(type) {
 		case *ast.CompositeLit:
 			n.canonLit(x)
